@@ -1,7 +1,7 @@
 // Driver for C06 (spec/taskset/Nested.tla, NestedTrace.tla): small acyclic nesting programs on the
 // REAL ThreadPool / ConcurrentTaskSet / TaskSet / Future / parallel_for under the controlled scheduler.
 //
-//   --out FILE --progs FILE (one program per line, optional prefix "NW=0,2 ") --nw 0,1,2 --runs N --seed S [--pct D]
+//   --out FILE --progs FILE (one program per line, optional prefixes "NW=0,2 " "R=12 ") --nw 0,1,2 --runs N --seed S [--pct D]
 //   [--maxsteps M] [--mult 32] [--notimeout]
 //
 // program text:   SETS;TASKS;MAIN
@@ -45,6 +45,7 @@ struct TaskDef {
 struct Program {
   std::string text;
   std::vector<int> nws; // pool sizes this program is run with (empty = the --nw list)
+  long long runs = 0; // executions per pool size (0 = --runs)
   std::vector<char> sets; // H L T
   std::vector<TaskDef> tasks; // 1-based: tasks[k-1]
   std::vector<Op> main;
@@ -76,11 +77,17 @@ static std::vector<Op> parseOps(const std::string& s) {
 static Program parseProgram(const std::string& line) {
   Program p;
   std::string text = line;
-  if (line.rfind("NW=", 0) == 0) { // optional prefix "NW=0,2,3 "
-    size_t sp = line.find(' ');
-    for (auto& s : drv::split(line.substr(3, sp - 3), ','))
-      p.nws.push_back(atoi(s.c_str()));
-    text = line.substr(sp + 1);
+  for (;;) { // optional prefixes "NW=0,2,3 " and "R=12 "
+    size_t sp = text.find(' ');
+    if (text.rfind("NW=", 0) == 0) {
+      for (auto& s : drv::split(text.substr(3, sp - 3), ','))
+        p.nws.push_back(atoi(s.c_str()));
+    } else if (text.rfind("R=", 0) == 0) {
+      p.runs = atoll(text.c_str() + 2);
+    } else {
+      break;
+    }
+    text = text.substr(sp + 1);
   }
   p.text = text;
   auto parts = drv::split(text, ';');
@@ -388,7 +395,7 @@ int main(int argc, char** argv) {
   bool stop = false;
   for (size_t pi = 0; pi < progs.size() && !stop; ++pi)
     for (int nw : (progs[pi].nws.empty() ? nws : progs[pi].nws)) {
-      for (long long i = 0; i < runs && !stop; ++i) {
+      for (long long i = 0; i < (progs[pi].runs ? progs[pi].runs : runs) && !stop; ++i) {
         ctl::RunOptions o;
         o.mode = ctl::RunOptions::Random;
         o.seed = seed * 1000003ULL + (uint64_t)pi * 7919 + (uint64_t)nw * 104729 + (uint64_t)i;
